@@ -399,3 +399,42 @@ func (verifNullTransport) doProtoHandshake(*protoHandshake) (*protoHandshake, er
 func (verifNullTransport) ReadMsg() (Msg, error)                                     { return Msg{}, io.EOF }
 func (verifNullTransport) WriteMsg(m Msg) error                                      { return m.Discard() }
 func (verifNullTransport) close(error)                                               {}
+
+// ---- the protocol handshake on a real rlpx transport (C17 round 5)
+
+// VerifTransport is the real rlpx transport (doProtoHandshake, ReadMsg, WriteMsg) over fd,
+// framed with explicit secrets (the encryption handshake is not run).
+type VerifTransport struct{ t *rlpx }
+
+func VerifNewTransport(fd net.Conn, aesKey, macKey, egressSeed, ingressSeed []byte) *VerifTransport {
+	eg := sha3.NewKeccak256()
+	eg.Write(egressSeed)
+	in := sha3.NewKeccak256()
+	in.Write(ingressSeed)
+	return &VerifTransport{&rlpx{fd: fd, rw: newRLPXFrameRW(fd, secrets{AES: aesKey, MAC: macKey, EgressMAC: eg, IngressMAC: in})}}
+}
+
+// DoProtoHandshake is (*rlpx).doProtoHandshake with our = {Version, Name, ID}.
+func (v *VerifTransport) DoProtoHandshake(version uint64, name string, id discover.NodeID) (theirVersion uint64, err error) {
+	their, err := v.t.doProtoHandshake(&protoHandshake{Version: version, Name: name, ID: id})
+	if err != nil {
+		return 0, err
+	}
+	return their.Version, nil
+}
+
+// Snappy is rw.snappy after the handshake.
+func (v *VerifTransport) Snappy() bool { return v.t.rw.snappy }
+
+// Send / Read are rlpx.WriteMsg / rlpx.ReadMsg.
+func (v *VerifTransport) Send(code uint64, payload []byte) error {
+	return v.t.WriteMsg(Msg{Code: code, Size: uint32(len(payload)), Payload: bytes.NewReader(payload)})
+}
+func (v *VerifTransport) Read() (uint64, []byte, error) {
+	m, err := v.t.ReadMsg()
+	if err != nil {
+		return 0, nil, err
+	}
+	b, _ := ioutil.ReadAll(m.Payload)
+	return m.Code, b, nil
+}
